@@ -983,12 +983,14 @@ namespace sim
     d0.h = 0;
     s.ops.push_back(d0);
     // afterwards the intact file must still build and answer like a fresh world
+    // a generated base document may name the one schema-valid option the library has to refuse
+    const bool base_refused = base.content.find("\"continuous\"") != std::string::npos;
     Op ci;
     ci.op = "create";
     ci.h = 1;
     ci.file = intact;
-    ci.expect = "accept";
-    ci.note = "intact-after";
+    ci.expect = base_refused ? "reject" : "accept";
+    ci.note = base_refused ? "unavailable-depth-method" : "intact-after";
     s.ops.push_back(ci);
     const bool fmt = s.generator == "c12/format" || rng.chance(0.15);
     if (fmt)
@@ -1000,8 +1002,8 @@ namespace sim
         cv.op = "create";
         cv.h = 2;
         cv.file = variant;
-        cv.expect = "accept";
-        cv.note = "format-variant";
+        cv.expect = base_refused ? "reject" : "accept";
+        cv.note = base_refused ? "unavailable-depth-method" : "format-variant";
         s.ops.push_back(cv);
       }
     const int nq2 = static_cast<int>(rng.range(3, 8));
